@@ -57,6 +57,8 @@ type Member struct {
 	calls    int
 	mode     string
 	app      *fiber.App
+	scraping bool
+	lateScrapes int
 }
 
 func (m *Member) tag(role string) string { return fmt.Sprintf("m%d%s", m.id, role) }
@@ -292,7 +294,7 @@ func (w *World) newMember(id int) *Member {
 	c.Metadata.ReadOnly = sc.ReadOnly
 	c.Metadata.Config = map[string]string{}
 	if sc.Metadata == "file" {
-		c.Metadata.Config["fileName"] = fmt.Sprintf("/simdisk/%s.json", sc.Group)
+		c.Metadata.Config["fileName"] = fmt.Sprintf("/simdisk/%s.json#m%d", sc.Group, id)
 	}
 	if sc.MetaBucket != "" && sc.MetaBucket != sc.Bucket {
 		c.Metadata.Config["bucket"] = sc.MetaBucket
